@@ -218,6 +218,119 @@ def variants(kinds, root=None, ana=None):
                         yield ("acc", site, rel, splice(src, n, txt))
 
 
+def third_generation(kinds, root=None):
+    """Rewrites met in the fifth batch of sub-agent edits (section 11.8): several sites of one file change together."""
+    root = root or ROOT
+    ana = signatures(root)
+    for mod in sorted(ana.prog.modules.values(), key=lambda m: m.relpath):
+        path = mod.path
+        src = open(path).read()
+        lines = src.split("\n")
+        rel = os.path.relpath(path, os.path.join(root, "src"))
+        funcs = [f for f in ana.prog.functions.values() if f.module is mod]
+        for f in funcs:
+            fn = f.node
+            short = f.qualname.split("fast_ticc.")[-1]
+            # ---- paramswap: a private module-level helper's first two parameters swapped, together with every (positional) call
+            if "paramswap" in kinds and f.name.startswith("_") and not f.name.startswith("__") and f.cls is None and f.parent is None \
+                    and not fn.decorator_list and len(fn.args.args) >= 2 and not fn.args.defaults and not fn.args.vararg and not fn.args.kwarg \
+                    and not fn.args.kwonlyargs and not fn.args.posonlyargs:
+                calls, foreign = [], False
+                for g in ana.prog.functions.values():
+                    for n in ast.walk(g.node):
+                        if isinstance(n, ast.Call):
+                            c = ana.res.callee(g, n)
+                            if c.func is f:
+                                if g.module is not mod or any(isinstance(a, ast.Starred) for a in n.args) or len(n.args) < 2:
+                                    foreign = True
+                                calls.append(n)
+                        elif isinstance(n, ast.Name) and n.id == f.name and isinstance(n.ctx, ast.Load):
+                            pass
+                refs = sum(1 for g in ana.prog.functions.values() for n in ast.walk(g.node)
+                           if (isinstance(n, ast.Name) and n.id == f.name) or (isinstance(n, ast.Attribute) and n.attr == f.name))
+                if calls and not foreign and refs == len(calls):
+                    edits = []
+                    a0, a1 = fn.args.args[0], fn.args.args[1]
+                    edits.append((a0, seg(lines, a1)))
+                    edits.append((a1, seg(lines, a0)))
+                    for c in calls:
+                        edits.append((c.args[0], seg(lines, c.args[1])))
+                        edits.append((c.args[1], seg(lines, c.args[0])))
+                    new_src = src
+                    for node, txt in sorted(edits, key=lambda e: (e[0].lineno, e[0].col_offset), reverse=True):
+                        new_src = splice(new_src, node, txt)
+                    yield ("paramswap", f"{rel}:{fn.lineno}:{short}", rel, new_src)
+            for n in ast.walk(fn):
+                site = f"{rel}:{getattr(n, 'lineno', 0)}:{short}"
+                if "dbgassert" in kinds and isinstance(n, ast.Assert) and lines[n.lineno - 1].strip().startswith("assert"):
+                    ind = indent_of(lines, n)
+                    msg = f"({seg(lines, n.msg)})" if n.msg is not None else ""
+                    txt = f"if __debug__ and not ({seg(lines, n.test)}):\n{ind}    raise AssertionError{msg}"
+                    yield ("dbgassert", site, rel, splice(src, n, txt))
+                if "tomap" in kinds and isinstance(n, ast.ListComp) and len(n.generators) == 1 and not n.generators[0].ifs and isinstance(n.generators[0].target, ast.Name) \
+                        and isinstance(n.elt, ast.Call) and isinstance(n.elt.func, (ast.Name, ast.Attribute)) and not n.elt.keywords and len(n.elt.args) >= 1 \
+                        and isinstance(n.elt.args[0], ast.Name) and n.elt.args[0].id == n.generators[0].target.id \
+                        and all(isinstance(a, (ast.Name, ast.Constant)) and not (isinstance(a, ast.Name) and a.id == n.generators[0].target.id) for a in n.elt.args[1:]) \
+                        and not any(isinstance(x, ast.Name) and x.id == n.generators[0].target.id for x in ast.walk(n.elt.func)):
+                    extra = "".join(f", itertools.repeat({seg(lines, a)})" for a in n.elt.args[1:])
+                    txt = f"list(map({seg(lines, n.elt.func)}, {seg(lines, n.generators[0].iter)}{extra}))"
+                    new_src = splice(src, n, txt)
+                    if extra and "import itertools" not in new_src:
+                        new_src = "import itertools\n" + new_src if not new_src.startswith('"""') else new_src.replace("\nimport ", "\nimport itertools\nimport ", 1)
+                    yield ("tomap", site, rel, new_src)
+                if "enumstart" in kinds and isinstance(n, ast.For) and isinstance(n.iter, ast.Call) and isinstance(n.iter.func, ast.Name) and n.iter.func.id == "enumerate" \
+                        and len(n.iter.args) == 1 and not n.iter.keywords and isinstance(n.target, ast.Tuple) and len(n.target.elts) == 2 \
+                        and isinstance(n.target.elts[0], ast.Name) and not n.orelse:
+                    v = n.target.elts[0].id
+                    stores = [x for st in n.body for x in ast.walk(st) if isinstance(x, ast.Name) and x.id == v and not isinstance(x.ctx, ast.Load)]
+                    later = [x for x in ast.walk(fn) if isinstance(x, ast.Name) and x.id == v and isinstance(x.ctx, ast.Load) and x.lineno > n.end_lineno]
+                    if not stores and not later:
+                        loads = sorted([x for st in n.body for x in ast.walk(st) if isinstance(x, ast.Name) and x.id == v and isinstance(x.ctx, ast.Load)],
+                                       key=lambda x: (x.lineno, x.col_offset), reverse=True)
+                        new_src = src
+                        for x in loads:
+                            new_src = splice(new_src, x, f"({v} - 1)")
+                        new_src = splice(new_src, n.iter, f"enumerate({seg(lines, n.iter.args[0])}, start=1)")
+                        yield ("enumstart", site, rel, new_src)
+                if "fullzeros" in kinds and isinstance(n, ast.Call) and isinstance(n.func, ast.Attribute) and n.func.attr == "zeros" and len(n.args) + len(n.keywords) == 1 \
+                        and (n.args or n.keywords[0].arg == "shape"):
+                    shp = n.args[0] if n.args else n.keywords[0].value
+                    yield ("fullzeros", site, rel, splice(src, n, f"{seg(lines, n.func.value)}.full({seg(lines, shp)}, 0.0)"))
+                if "intwrap" in kinds and isinstance(n, ast.Subscript) and isinstance(n.ctx, ast.Load) and isinstance(n.value, ast.Attribute) and n.value.attr == "shape" \
+                        and isinstance(n.slice, ast.Constant) and not f.decorators:
+                    yield ("intwrap", site, rel, splice(src, n, f"int({seg(lines, n)})"))
+                if "explicitdefault" in kinds and isinstance(n, ast.Call) and not any(isinstance(a, ast.Starred) for a in n.args) and len(n.args) == 1:
+                    from .. import terms as _tm
+                    r = ana.res.fq_of_expr(f, n.func)
+                    dflt = _tm.KNOWN_DEFAULTS.get(r[1]) if r else None
+                    if dflt:
+                        have = {k.arg for k in n.keywords}
+                        add = [(k, v) for k, v in dflt.items() if k not in have][:2]
+                        if add and all(k.arg for k in n.keywords):
+                            parts = [seg(lines, a) for a in n.args] + [f"{k.arg}={seg(lines, k.value)}" for k in n.keywords] + [f"{k}={v!r}" for k, v in add]
+                            yield ("explicitdefault", site, rel, splice(src, n, f"{seg(lines, n.func)}({', '.join(parts)})"))
+                if "condstore" in kinds and isinstance(n, ast.If) and n.orelse and len(n.body) == len(n.orelse) and lines[n.lineno - 1][n.col_offset:].startswith("if ") \
+                        and all(isinstance(a, ast.Assign) and isinstance(b_, ast.Assign) and len(a.targets) == 1 and len(b_.targets) == 1
+                                and isinstance(a.targets[0], ast.Subscript) and ast.dump(a.targets[0]) == ast.dump(b_.targets[0]) for a, b_ in zip(n.body, n.orelse)):
+                    ind = indent_of(lines, n)
+                    parts = [f"flag__ = {seg(lines, n.test)}"]
+                    for a, b_ in zip(n.body, n.orelse):
+                        parts.append(f"{seg(lines, a.targets[0])} = ({seg(lines, a.value)}) if flag__ else ({seg(lines, b_.value)})")
+                    whole = type("N", (), {"lineno": n.lineno, "col_offset": n.col_offset, "end_lineno": n.end_lineno, "end_col_offset": n.end_col_offset})
+                    yield ("condstore", site, rel, splice(src, whole, ("\n" + ind).join(parts)))
+                if "starargs" in kinds and isinstance(n, (ast.Assign, ast.Expr)) and isinstance(n.value, ast.Call) and n.col_offset == len(indent_of(lines, n)) and n.lineno == n.end_lineno:
+                    c = n.value
+                    cal = ana.res.callee(f, c)
+                    if cal.func is not None and cal.kind == "internal" and len(c.args) >= 3 and not c.keywords \
+                            and all(isinstance(a, ast.Name) or (isinstance(a, ast.Attribute) and no_calls(a)) for a in c.args[1:]) \
+                            and not any(isinstance(a, ast.Starred) for a in c.args):
+                        ind = indent_of(lines, n)
+                        pack = ", ".join(seg(lines, a) for a in c.args[1:])
+                        call_txt = f"{seg(lines, c.func)}({seg(lines, c.args[0])}, *rest__)"
+                        txt = f"rest__ = ({pack},)\n{ind}" + splice(seg(lines, n), type("N", (), {"lineno": 1, "col_offset": c.col_offset - n.col_offset, "end_lineno": c.end_lineno - n.lineno + 1, "end_col_offset": c.end_col_offset if c.end_lineno != n.lineno else c.end_col_offset - n.col_offset}), call_txt)
+                        yield ("starargs", site, rel, splice(src, n, txt))
+
+
 def analyse(job):
     kind, site, rel, new_src = job[:4]
     root = job[4] if len(job) > 4 else ROOT
@@ -253,13 +366,14 @@ def analyse(job):
         shutil.rmtree(tmp, ignore_errors=True)
 
 
+THIRD = ("paramswap", "dbgassert", "tomap", "enumstart", "starargs", "fullzeros", "intwrap", "explicitdefault", "condstore")
 ALL_KINDS = ("flip", "negif", "ifexp", "kwargs", "posargs", "rettmp", "acc", "assigntmp", "nop",
              "unpack", "toifexp", "defaultelse", "rangeshift", "for2while", "comp2loop", "kwshuffle")
 
 
 def run(root, pid, ana=None, jobs=16, stride=4):
     """Thorough tier: a deterministic quarter of the mechanical twins (offset by the property number), analysed for `pid` only."""
-    work = list(variants(set(ALL_KINDS), root, ana))
+    work = list(variants(set(ALL_KINDS), root, ana)) + list(third_generation(set(THIRD), root))
     off = int(pid[1:]) % stride
     work = [w + (root, [pid]) for i, w in enumerate(work) if i % stride == off]
     silent = und = 0
@@ -289,7 +403,7 @@ def main():
             mx = int(args.pop(0))
         elif a == "--out":
             outf = args.pop(0)
-    work = list(variants(kinds))
+    work = list(variants(kinds)) + list(third_generation(kinds if kinds != set(ALL_KINDS) else set(THIRD)))
     if mx:
         work = work[:mx]
     counts = {}
